@@ -596,6 +596,7 @@ def run(ctx):
     ctx.require('application_disconnect_scenarios', 10)
     ctx.require('non_blocking_poll_scenarios', 10)
     ctx.require('non_blocking_polls_after_the_end', 10)
+    ctx.require('server_disconnect_scenarios', 10)
     ctx.require('calls_across_a_reconnection', 10)
     ctx.require('reconnections_needing_several_attempts', 10)
     ctx.extra['scenarios'] = {}
@@ -821,6 +822,9 @@ def after_disconnect_and_polls(ctx, k):
     # after the end the application goes on reading with blocking calls or
     # with non-blocking polls
     t_after = rng.choice([1, 1, 0])
+    # what ends the connection for good: the application's disconnect(), or
+    # the server disconnecting the client's namespace
+    ender = rng.choice(['application', 'application', 'server'])
     h = E.make_client(kind, client_kw={'reconnection': rng.random() < 0.5})
     results = []
     after = []
@@ -862,7 +866,11 @@ def after_disconnect_and_polls(ctx, k):
                     for _ in range(n_ev - n_read + 1):
                         await arec(results, sc.receive(timeout=0))
                     return
-                await sc.disconnect()
+                if ender == 'application':
+                    await sc.disconnect()
+                else:
+                    h.deliver(RR.DISCONNECT, ns, None, None)
+                    await asyncio.sleep(0.01)
                 for _ in range(n_ev - n_read + 1):
                     t0 = loop.time()
                     await arec(after, sc.receive(timeout=t_after))
@@ -900,7 +908,11 @@ def after_disconnect_and_polls(ctx, k):
                 for _ in range(n_ev - n_read + 1):
                     rec(results, lambda: h.call(sc.receive, timeout=0))
             else:
-                h.call(sc.disconnect)
+                if ender == 'application':
+                    h.call(sc.disconnect)
+                else:
+                    h.deliver(RR.DISCONNECT, ns, None, None)
+                    h.pump()
                 h.idle_hook = idle
                 for _ in range(n_ev - n_read + 1):
                     rec(after, lambda: h.call(sc.receive, timeout=t_after))
@@ -911,7 +923,7 @@ def after_disconnect_and_polls(ctx, k):
     w = {'part': 'after_disconnect_and_polls', 'case_index': k,
          'kind': kind, 'namespace': ns, 'events': n_ev,
          'read_before': n_read, 'non_blocking_polls': polls,
-         'receive_timeout_after_the_end': t_after,
+         'receive_timeout_after_the_end': t_after, 'ended_by': ender,
          'results': jsonable(results), 'after_disconnect': jsonable(after),
          'errors': h.all_errors()[:3]}
     evs = [('ok', ['ev', i]) for i in range(n_ev)]
@@ -930,6 +942,8 @@ def after_disconnect_and_polls(ctx, k):
             return
     else:
         ctx.count('application_disconnect_scenarios')
+        if ender == 'server':
+            ctx.count('server_disconnect_scenarios')
         if t_after == 0:
             ctx.count('non_blocking_polls_after_the_end')
         want_after = evs[n_read:] + [('DisconnectedError', None)] * 3
@@ -940,9 +954,12 @@ def after_disconnect_and_polls(ctx, k):
                     after[-3:] == [('TimeoutError', None)] + \
                     [('DisconnectedError', None)] * 2:
                 key = 'async-poll-after-the-end-times-out'
-            ctx.violation(key, 'after the application called disconnect() '
-                          'with %d event(s) still buffered: receive'
+            ctx.violation(key, 'after %s with %d event(s) still buffered: '
+                          'receive'
                           '(timeout=%r) x%d, emit, call gave %r' % (
+                              'the application called disconnect()'
+                              if ender == 'application' else
+                              'the server disconnected the namespace',
                               n_ev - n_read, t_after, n_ev - n_read + 1,
                               [r[0] if r[0] != 'ok' else r[1]
                                for r in after]), w)
